@@ -442,7 +442,16 @@ def patterns(maxsteps):
     return out
 
 
+EXPLICIT_STEPS = [['child', '::', 'a'], ['child', '::', 'b'], ['child', '::', '*'], ['child', '::', 'node', '(', ')'], ['child', '::', 'text', '(', ')'], ['attribute', '::', 'x'],
+                  ['attribute', '::', '*']]
+
+
 def step_matches(step, n):
+    # the axis written out: child::T is T, attribute::T is @T (XSLT 1.0 5.2: the only two axes a pattern step may name)
+    if step[:2] == ['child', '::']:
+        step = step[2:]
+    elif step[:2] == ['attribute', '::']:
+        step = ['@'] + step[2:]
     if '[' in step:
         i = step.index('[')
         base, idx = step[:i], [int(x) for x in step[i:] if x.isdigit()]
@@ -581,72 +590,102 @@ def run_rule(res, facts, tier):
                 pats.append(['/', '/'] + st + sep + s1)
     if tier != 'thorough':
         pats += [p for i, p in enumerate(patterns(3)) if i % 9 == 0]
-    seen = set()
-    found = {}
-    families = {}
-    n_checks = 0
+    # steps with the axis written out, in every position of two- and three-step patterns
+    plain = [['a'], ['b'], ['*'], ['text', '(', ')'], ['@', 'x']]
+    for ex in EXPLICIT_STEPS:
+        for lead in ([], ['/'], ['/', '/']):
+            pats.append(lead + ex)
+        for other in plain + EXPLICIT_STEPS[:2]:
+            for sep in (['/'], ['/', '/']):
+                pats.append(ex + sep + other)
+                pats.append(other + sep + ex)
+                pats.append(['/', '/'] + ex + sep + other)
+        for s1, s3 in (( ['a'], ['b']), (['b'], ['a']), (['*'], ['text', '(', ')'])):
+            for sep1, sep2 in itertools.product((['/'], ['/', '/']), repeat=2):
+                if tier == 'thorough' or (sep1, sep2) != (['/'], ['/']):
+                    pats.append(s1 + sep1 + ex + sep2 + s3)
+    uniq, seen = [], set()
     for toks in pats:
-        if tuple(toks) in seen:
-            continue
-        seen.add(tuple(toks))
-        expr = Obj(NS + 'XPathExpression', {'m_opMap': Vec([], 'ops'), 'm_lastOpCodeIndex': 0, 'm_tokenQueue': Vec([Tok(t) for t in toks], 'tokens'), 'm_currentPosition': 0,
-                                            'm_currentPattern': '', 'm_numberLiteralValues': Vec([])})
-        xp = Obj(NS + 'XPath', {'m_expression': expr, 'm_locator': 0, 'm_inStylesheet': 1})
-        parser = Obj(NS + 'XPathProcessorImpl', {'m_token': '', 'm_tokenChar': 0, 'm_xpath': 0, 'm_constructionContext': 0, 'm_expression': 0, 'm_prefixResolver': 0,
-                                                 'm_requireLiterals': 0, 'm_isMatchPattern': 0, 'm_positionPredicateStack': Vec([]), 'm_namespaces': Vec([]), 'm_locator': 0,
-                                                 'm_allowVariableReferences': 1, 'm_allowKeyFunction': 1})
-        ptxt = ' '.join(toks)
-        w.calls = 0
-        w.pending = list(toks)
-        try:
-            m = OMachine(w, {}, parser)
-            m.fuel = 20000
-            m.run_body(init, [xp, 'CCTX', ptxt, 'RES', 0, 1, 1], parser)
-        except Reject as x:
-            raise AnalysisBroken('the pattern parser rejects the valid pattern "%s" (%s)' % (ptxt, x))
-        except Fault as f:
-            r.violation('compiling ' + ptxt, 'the pattern parser misbehaves: %s' % f, common.file_line(init)); continue
-        except Unsupported as u:
-            raise AnalysisBroken('pattern compilation outside the interpreted subset on "%s": %s' % (ptxt, u))
-        for nd in nodes:
-            n_checks += 1
+        if tuple(toks) not in seen:
+            seen.add(tuple(toks))
+            uniq.append(toks)
+
+    def work(part):
+        found, families, viol = {}, {}, []
+        cnt = {'n': 0, 'checks': 0}
+        for toks in part:
+            expr = Obj(NS + 'XPathExpression', {'m_opMap': Vec([], 'ops'), 'm_lastOpCodeIndex': 0, 'm_tokenQueue': Vec([Tok(t) for t in toks], 'tokens'), 'm_currentPosition': 0,
+                                                'm_currentPattern': '', 'm_numberLiteralValues': Vec([])})
+            xp = Obj(NS + 'XPath', {'m_expression': expr, 'm_locator': 0, 'm_inStylesheet': 1})
+            parser = Obj(NS + 'XPathProcessorImpl', {'m_token': '', 'm_tokenChar': 0, 'm_xpath': 0, 'm_constructionContext': 0, 'm_expression': 0, 'm_prefixResolver': 0,
+                                                     'm_requireLiterals': 0, 'm_isMatchPattern': 0, 'm_positionPredicateStack': Vec([]), 'm_namespaces': Vec([]), 'm_locator': 0,
+                                                     'm_allowVariableReferences': 1, 'm_allowKeyFunction': 1})
+            ptxt = ' '.join(toks)
             w.calls = 0
+            w.pending = list(toks)
             try:
-                mm = OMachine(w, {}, xp)
-                mm.fuel = 20000
-                score = mm.run_body(gms, [nd, 'ECTX'], xp)
-                got = score != NONE
-            except Fault as f:
-                got = 'FAULT: %s' % f
+                m = OMachine(w, {}, parser)
+                m.fuel = 20000
+                m.run_body(init, [xp, 'CCTX', ptxt, 'RES', 0, 1, 1], parser)
             except Reject as x:
-                got = 'ERROR: %s' % x
+                raise AnalysisBroken('the pattern parser rejects the valid pattern "%s" (%s)' % (ptxt, x))
+            except Fault as f:
+                viol.append(('compiling ' + ptxt, 'the pattern parser misbehaves: %s' % f, common.file_line(init))); continue
             except Unsupported as u:
-                raise AnalysisBroken('matching outside the interpreted subset on "%s" against %s: %s' % (ptxt, nd.name, u))
-            want = ref_match(toks, nd)
-            if got is want:
-                r.instances += 1
-                continue
-            if isinstance(got, bool) and got == known_model(toks, nd):
-                fam = ("inner '//': no backtracking - the nearest ancestor that passes the node test is final" if want else
-                       "rooted pattern with '//': the first step need not be the document element")
-                if fam not in families:
-                    families[fam] = (ptxt, nd, got, want)
-                r.instances += 1
-                continue
-            lead, steps = split(toks)
-            shape = (lead or 'rel') + ' ' + ' '.join((s or '') + ('@' if st[0] == '@' else ('t' if st[0] in ('text', 'node') else 'n')) + ('[i]' if '[' in st else '') for s, st in steps)
-            key = (shape, bool(want))
-            if key not in found:
-                found[key] = (ptxt, nd, got, want)
-            r.instances += 1
+                raise AnalysisBroken('pattern compilation outside the interpreted subset on "%s": %s' % (ptxt, u))
+            for nd in nodes:
+                cnt['checks'] += 1
+                w.calls = 0
+                try:
+                    mm = OMachine(w, {}, xp)
+                    mm.fuel = 20000
+                    score = mm.run_body(gms, [nd, 'ECTX'], xp)
+                    got = score != NONE
+                except Fault as f:
+                    got = 'FAULT: %s' % f
+                except Reject as x:
+                    got = 'ERROR: %s' % x
+                except Unsupported as u:
+                    raise AnalysisBroken('matching outside the interpreted subset on "%s" against %s: %s' % (ptxt, nd.name, u))
+                want = ref_match(toks, nd)
+                if got is want:
+                    cnt['n'] += 1
+                    continue
+                if isinstance(got, bool) and got == known_model(toks, nd):
+                    fam = ("inner '//': no backtracking - the nearest ancestor that passes the node test is final" if want else
+                           "rooted pattern with '//': the first step need not be the document element")
+                    if fam not in families:
+                        families[fam] = (ptxt, nd.name, got, want)
+                    cnt['n'] += 1
+                    continue
+                lead, steps = split(toks)
+                shape = (lead or 'rel') + ' ' + ' '.join((s or '') + ('@' if st[0] == '@' else ('t' if st[0] in ('text', 'node') else 'n')) + ('[i]' if '[' in st else '') for s, st in steps)
+                key = (shape, bool(want))
+                if key not in found:
+                    found[key] = (ptxt, nd.name, got, want)
+                cnt['n'] += 1
+        return cnt, found, families, viol
+    from ..report import fork_map
+    nparts = 8 if tier == 'thorough' else 4
+    found, families = {}, {}
+    n_checks = 0
+    for cnt, fnd, fam, viol in fork_map(work, [uniq[i::nparts] for i in range(nparts)]):
+        r.instances += cnt['n']
+        n_checks += cnt['checks']
+        for site, what, loc in viol:
+            r.violation(site, what, loc)
+        for k2, v in fnd.items():
+            found.setdefault(k2, v)
+        for k2, v in fam.items():
+            families.setdefault(k2, v)
     for (shape, want), (ptxt, nd, got, _) in sorted(found.items()):
         r.instances -= 1
         r.violation('pattern shape %s: %s' % (shape, 'does not match a node it selects' if want else 'matches a node it does not select'),
-                    'match="%s" against %s: the matcher says %s; by XSLT 1.0 5.2 the node %s' % (ptxt.replace(' ', ''), nd.name, got, 'matches' if want else 'does not match'),
+                    'match="%s" against %s: the matcher says %s; by XSLT 1.0 5.2 the node %s' % (ptxt.replace(' ', ''), nd, got, 'matches' if want else 'does not match'),
                     common.file_line(gms))
     for fam, (ptxt, nd, got, want) in sorted(families.items()):
         r.instances -= 1
-        r.violation(fam, 'e.g. match="%s" against %s: the matcher says %s; by XSLT 1.0 5.2 the node %s' % (ptxt.replace(' ', ''), nd.name, got, 'matches' if want else 'does not match'),
+        r.violation(fam, 'e.g. match="%s" against %s: the matcher says %s; by XSLT 1.0 5.2 the node %s' % (ptxt.replace(' ', ''), nd, got, 'matches' if want else 'does not match'),
                     common.file_line(gms))
     r.note('%d patterns x %d nodes' % (len(seen), len(nodes)))
     return r
